@@ -1,4 +1,3 @@
 #!/bin/sh
-# tools/refresh_many.sh <id>...   - tools/refresh_seed.py --notests for each id, PAR at a time; one summary line each
-mkdir -p .work/refresh
-for id in "$@"; do echo $id; done | xargs -P ${PAR:-4} -I{} sh -c '/venv/bin/python tools/refresh_seed.py seeded/{} $(python3 -c "import json;print(json.load(open(\"seeded/{}/meta.json\")).get(\"property\"))") --notests 2>&1 | tail -1 | cut -c1-250'
+# tools/refresh_many.sh <id>...   - tools/refresh_seed.py --notests for each id (checks: those recorded in its meta.json), PAR at a time
+for id in "$@"; do echo $id; done | xargs -P ${PAR:-4} -I{} sh -c '/venv/bin/python tools/refresh_seed.py seeded/{} $(python3 tools/seed_checks.py {}) --notests 2>&1 | tail -1 | cut -c1-250'
